@@ -75,15 +75,17 @@ def Reject.key : Reject → String
   | .decode e => "decode:" ++ e.str
   | .auth e => e.key
 
+/-- the `?` on a connection-ID check: its error is the function's error -/
+def liftAuth : Except AuthErr Unit → Except Reject Unit
+  | .error e => .error (.auth e)
+  | .ok () => .ok ()
+
 /-- `on_server_params` (`role = .server`: the block was sent by the server, the client validates) /
     `on_client_params` (`role = .client`) on the raw extension bytes, with the field table `fs` -/
 def onPeerBlockWith (fs : List Field) (role : Role) (h : Handshake) (blk : List Nat) : Except Reject Unit :=
   match decodeParameters fs role blk with
   | .error e => .error (.decode e)
-  | .ok ps =>
-    match authenticate role h (peerCids ps) with
-    | .error e => .error (.auth e)
-    | .ok () => .ok ()
+  | .ok ps => liftAuth (authenticate role h (peerCids ps))
 
 /-- … with the table of the pinned commit (bridged to /repo by `Bridge.TransportParams`) -/
 def onPeerBlock (role : Role) (h : Handshake) (blk : List Nat) : Except Reject Unit :=
